@@ -42,7 +42,8 @@ from engine import pipeline_harness as H
 from engine.core import MachineryError, digest
 
 OWN = 'P4'
-C4_ACTIONS = ['XAddHandler'] + H.PIPE_ACTIONS
+C4_ACTIONS = ['AddHandler', 'Start', 'XReqCall', 'XRsrcCall', 'XResponder', 'XRespCall', 'RenderCall', 'XRenderFail', 'Route',
+              'NotFound', 'HandleCall']
 ALL_BEHS = ['set', 'noop', 'http', 'status', 'other']
 
 
@@ -92,7 +93,7 @@ def check_render(ctx, cell, fields, asgi, leg):
     e = cell['err']
     f = H.Fields()
     f.title_tail = fields.title_tail
-    f.description = fields.description if e['desc'] else None
+    f.description = (fields.description if fields.description is not None else 'desc ' + fields.title_tail) if e['desc'] else None
     f.code = (fields.code if fields.code is not None else 42) if e['code'] else None
     f.href = (fields.href or 'http://example.com/help') if e['link'] else None
     f.href_text = fields.href_text if e['link'] else None
@@ -197,7 +198,7 @@ def run(ctx):
     ctx.progress('leg M done: %d + %d distinct states, %d rendering cells' % (r.distinct, rt.distinct, len(table)))
 
     # ---- leg A: pipeline behaviours --------------------------------------------------------------
-    ra = ctx.tlc('MC_Pipeline', 'MC_PipelineHA.cfg', env=env, workers=4, timeout=ctx.pick(280, 1500), count=False)
+    ra = ctx.tlc('MC_Pipeline', ctx.pick('MC_PipelineHA.cfg', 'MC_PipelineHA2.cfg'), env=env, workers=4, timeout=ctx.pick(280, 1500), count=False)
     behaviours = list({digest(b): b for b in ra.json}.values())
     ctx.extra['spec_behaviours_exported'] = len(behaviours)
     cap = ctx.pick(5000, 150000)
